@@ -24,12 +24,12 @@ func init() {
 		},
 		NumCases: func(tier string) int {
 			if tier == "thorough" {
-				return 60000
+				return 800000
 			}
-			return 5000
+			return 12000
 		},
 		Run:          c12Run,
-		RaceNumCases: func(tier string) int { return map[string]int{"quick": 64, "thorough": 600}[tier] },
+		RaceNumCases: func(tier string) int { return map[string]int{"quick": 64, "thorough": 4000}[tier] },
 		RaceRun:      c12Race,
 		RaceProcs:    8,
 		Floors: func(m *Merged, tier string) []string {
